@@ -28,7 +28,7 @@ TUNINGS = [
     (0.7, 2.0, 3),
 ]
 TUNINGS_SAMPLED = [(0.5, 1.5, 7), (1.0, 1.2, 5)]
-ACK_KINDS = ["none", "empty", "piggy", "rst"]
+ACK_KINDS = ["none", "empty", "piggy", "rst", "foreign"]
 DECOYS = ["none", "mid+1", "mid-1", "port", "ip", "dup"]
 DELAYS = ["fast", "mid", "late", "after1"]  # position of the ack inside the gap following transmission k
 TOL = 1e-6
@@ -42,7 +42,7 @@ def cells(tier):
             for lost in itertools.combinations(range(mr + 1), nlost):
                 # no ack at all
                 out.append((tun, lost, "none", None, None, "none"))
-                for kind in ("empty", "piggy", "rst"):
+                for kind in ("empty", "piggy", "rst", "foreign"):
                     for k in range(mr + 1):
                         if k in lost:
                             continue  # the peer never saw transmission k
@@ -122,13 +122,17 @@ def run_client_case(cell, seed, rep, case):
                     msg = rc.Msg(rc.ACK, 0, m.mid, b"", (), b"")
                 elif kind == "piggy":
                     msg = rc.Msg(rc.ACK, rc.c(2, 5), m.mid, m.token, (), b"piggy")
+                elif kind == "foreign":
+                    # right message ID, right endpoint, but a response for a token the client does not know:
+                    # the message layer must still treat it as the acknowledgement of this exchange
+                    msg = rc.Msg(rc.ACK, rc.c(2, 5), m.mid, b"\xf0\x0f\xf0", (), b"stale")
                 else:
                     msg = rc.Msg(rc.RST, 0, m.mid, b"", (), b"")
                 peer.send(src, msg)
                 if decoy == "dup":
                     peer.send(src, msg)
                     loop.call_later(0.3, peer.send, src, msg)
-                if kind == "empty":
+                if kind in ("empty", "foreign"):
                     # separate response a little later (NON, so no further exchange state is needed)
                     loop.call_later(0.5, peer.send, src, rc.Msg(rc.NON, rc.c(2, 5), peer.next_mid(), m.token, (), b"separate"))
 
@@ -250,7 +254,7 @@ def judge(cell, obs, rep, case, side, res):
         if matched_kind == "piggy":
             if kind_o != "response" or val != b"piggy":
                 rep.violation("client/piggybacked-response-not-delivered", "request did not complete with the piggybacked response", w(outcome=repr(val)), case)
-        elif matched_kind == "empty":
+        elif matched_kind in ("empty", "foreign"):
             if kind_o != "response" or val != b"separate":
                 rep.violation("client/separate-response-not-delivered", "after an empty ACK the request did not complete with the separate response", w(outcome=repr(val)), case)
         elif matched_kind == "rst":
